@@ -275,16 +275,17 @@ class OrderedMultiDict(dict, MutableMappingSequence):
             raise TypeError(f"expected at most 1 arguments, got {len(args)}")
 
         iterable = args[0] if args else None
-        if iterable is self:
-            # Like list.extend(): only what is there now is added again.
-            iterable = list(self.__items)
         if iterable:
+            # Read the pairs first: *iterable* may be this container or
+            # one of its views, and like list.extend() only what is there
+            # now is added.
             if isinstance(iterable, abc.Mapping) or hasattr(iterable, "items"):
-                for key, value in iterable.items():
-                    self.append(key, value)
+                pairs = list(iterable.items())
             else:
-                for key, value in iterable:
-                    self.append(key, value)
+                pairs = list(iterable)
+
+            for key, value in pairs:
+                self.append(key, value)
 
         for key, value in kwargs.items():
             self.append(key, value)
